@@ -41,7 +41,25 @@ pub fn c01(tier: &str, seed: u64) {
       None
     };
     let nrep = t as usize + g.below(4) as usize;
-    let clients: Vec<Client> = (0..nrep).map(|_| make_client(&m, &e, t, gen_aux(&mut g), rnd_o)).collect();
+    let mut clients: Vec<Client> = (0..nrep).map(|_| make_client(&m, &e, t, gen_aux(&mut g), rnd_o)).collect();
+    // client 0 reuses ONE generator object: it first produced a report under other randomness
+    // (and the WASM material), then the report it actually sends
+    if case_i % 3 == 0 {
+      let mg = MessageGenerator::new(SingleMeasurement::new(&m), t, &e);
+      let mut other = [0u8; 32];
+      other.copy_from_slice(&g.bytes(32));
+      let _ = Message::generate(&mg, &other, None);
+      let _ = mg.share_with_local_randomness();
+      let mut rnd = [0u8; 32];
+      match rnd_o {
+        Some(r) => rnd = r,
+        None => mg.sample_local_randomness(&mut rnd),
+      }
+      let aux = clients[0].aux.clone();
+      let msg = Message::generate(&mg, &rnd, aux.as_ref().map(|a| sta_rs::AssociatedData::new(a))).expect("generate");
+      clients[0] = Client { m: m.clone(), e: e.clone(), t, aux, rnd, msg };
+      stat("oracle.C01.generator_reused");
+    }
     // through the wire
     let decoded: Vec<Message> = clients
       .iter()
@@ -139,8 +157,15 @@ pub fn c16(tier: &str, seed: u64) {
     let r = { let n = if big { 70_000 } else { *g.pick(&[0usize, 1, 4, 32, 166, 500]) }; g.blob(n) };
     let c = Commune::new(t, m.clone(), r.clone(), None);
     let cnt = (t as usize + 2).max(2);
+    // history: the same (t, M, R) was shared under a custom transcript immediately before
+    let preceded = case_i % 2 == 1;
+    if preceded {
+      let (tr, _) = custom_transcript(&mut g);
+      let _ = Commune::new(t, m.clone(), r.clone(), Some(tr)).share();
+      stat("oracle.C16.preceded_by_custom_transcript");
+    }
     let shares: Vec<AShare> = (0..cnt).map(|_| c.clone().share().expect("share")).collect();
-    let desc = vec![("threshold", t.to_string()), ("message", hex(&m[..m.len().min(64)])), ("message_len", m.len().to_string()), ("coins_len", r.len().to_string())];
+    let desc = vec![("threshold", t.to_string()), ("preceded_by_custom_transcript_sharing_of_same_inputs", preceded.to_string()), ("message", hex(&m[..m.len().min(64)])), ("message_len", m.len().to_string()), ("coins_len", r.len().to_string())];
     // deterministic except for the Shamir share
     let strip = |s: &AShare| {
       let b = s.to_bytes();
@@ -658,6 +683,34 @@ pub fn c03(tier: &str, seed: u64) {
       }
     }
     if case_i == 0 {
+      // systematic sweep: every associated-data length 1..=136 for a few measurement lengths; the
+      // framed aux field and every 8-byte fragment of a random aux must not occur in the report
+      for mlen in [1usize, 6, 11, 20, 32] {
+        let mm = g.bytes(mlen);
+        for alen2 in 1..=(if quick(tier) { 72 } else { 136 }) {
+          let a = g.bytes(alen2);
+          let c = make_client(&mm, &e, 2, Some(a.clone()), None);
+          let b = c.msg.to_bytes();
+          let mut leaked = None;
+          if alen2 >= 8 {
+            for w in a.windows(8) {
+              if let Some(off) = contains(&b, w) {
+                leaked = Some(off);
+                break;
+              }
+            }
+          } else {
+            let mut framed = (alen2 as u32).to_le_bytes().to_vec();
+            framed.extend(&a);
+            leaked = contains(&b, &framed);
+          }
+          if let Some(off) = leaked {
+            fail("aux_in_clear", &[("measurement_len", mlen.to_string()), ("aux_len", alen2.to_string()), ("aux", hex(&a)), ("offset", off.to_string()), ("report", hex(&b))]);
+          }
+          stat("oracle.aux_scans");
+          case(true);
+        }
+      }
       sample(&[("measurement", hex(&m)), ("aux_len", alen.to_string()), ("ciphertext_1", hex(&clients[0].msg.ciphertext.to_bytes())), ("ciphertext_2", hex(&clients[1].msg.ciphertext.to_bytes()))]);
     }
   }
